@@ -200,6 +200,9 @@ class RecPlugin(ResourceProvider, SnapshotDecorator, TracepointLogger, SpanProce
 
     def _metric(self, op, name, labels, namespace, help_string, unit, value):
         self.record('metric', op, name, dict(labels), namespace, help_string, unit, value)
+        # a processor owns what it is handed (the prometheus one hands the dict on to its client): what one
+        # processor does to its labels must not show up in what the next one receives
+        labels['_touched_by'] = self.name
         if 'metric' in self.faults:
             raise self.exc("metric failed")
 
